@@ -90,6 +90,47 @@ def gen_div(rng, tag):
     return dict(line=line, shape=shape, axis=axk, nc=nc, level=lvl)
 
 
+def gen_multi(rng):
+    """several cells of different sizes, some dividing (natural readiness), some not: simultaneous divisions under threads"""
+    cells = []; roles = []
+    layout = rng.choice([["normal", "big", "small", "normal"], ["big", "normal", "small"], ["normal", "big", "normal", "small", "small"], ["small", "big"], ["big", "small", "normal"]])
+    Vs = []
+    for i, role in enumerate(layout):
+        lvl = 3 if role == "big" else 1
+        n0, f = tissue.icosphere(lvl)
+        n0 = [[p[0] * 1.0, p[1] * 0.82, p[2] * 0.68] for p in n0]
+        n0 = tissue.perturb(rng, n0, 0.04 * tissue.mean_edge(n0, f))
+        s = 2.0 if role == "big" else 1.0
+        nodes = tissue.transform(n0, tissue.rnd_rot(rng), (i * 6.0 * R, 0, 0), (R * s, R * s, R * s))
+        Vs.append(abs(tissue.signed_volume(nodes, f)))
+        cells.append((i, nodes, f)); roles.append("normal" if role == "normal" else "divide0")
+    cts = []
+    for V, r in zip(Vs, roles):
+        cts += std_types(V, [r], [3])
+    p = tissue.params(dt=1e-7, damping=5e-10, T=1.0, S=1.0, lmin=1.5e-6, cut_adh=5e-7, cut_rep=5e-7, swap=0)
+    line = tissue.fmt_tissue(p, cts, cells) + " DIV %d 2 0x0p+0 0x0p+0 0x0p+0" % rng.randrange(10 ** 6)
+    return dict(line=line, layout=layout, roles=roles)
+
+
+def oracle_multi(c, pop):
+    before = pop["before"]; aft = pop["after"]; ids = [x[0] for x in aft]
+    dividing = [before[i] for i, r in enumerate(c["roles"]) if r == "divide0"]
+    quiet = [before[i] for i, r in enumerate(c["roles"]) if r != "divide0"]
+    if any(q not in ids for q in quiet):
+        return "no_cell_lost (a cell that did not divide vanished from the population: before %s roles %s, after %s)" % (before, c["roles"], ids)
+    if len(set(ids)) != len(ids):
+        return "ids_unique_after_run (%s)" % ids
+    if any(x[2] != 1 for x in aft):
+        return "every_cell_after_run_is_a_valid_surface (an emptied or broken cell stays in the population: %s)" % aft
+    if [x[1] for x in aft] != list(range(len(aft))):
+        return "list_indices_are_positions_after_run (%s)" % [x[1] for x in aft]
+    gone = [i for i in before if i not in ids]; new = [i for i in ids if i not in before]
+    c0 = 10 + len(before)
+    if any(g not in dividing for g in gone) or len(new) != 2 * len(gone) or sorted(new) != list(range(c0, c0 + len(new))) or pop["counter"] != c0 + len(new):
+        return "mothers_replaced_by_two_fresh_ids_each (before %s, after %s, counter %d)" % (before, ids, pop["counter"])
+    return None
+
+
 def parse_div(out):
     s = [x.strip() for x in out.split(" | ")]
     m = s[0].split(); mother = dict(id=int(m[1]), nn=int(m[2]), nf=int(m[3]), vol=unhx(m[4]), area=unhx(m[5]), tvol=unhx(m[6]))
@@ -152,7 +193,7 @@ def oracle(c, mother, stages, res, after, pop, devs):
 
 def run(ck):
     nep, nrot, ndiv = (300, 80, 40) if ck.tier == "quick" else (20000, 3000, 1200)
-    ck.cov["rule"] = ("stages: edge/plane pairs (crossing, same side, end point on the plane, parallel, random; three scales), all 60 corner orders of a cut face, rotations to the xy plane for random unit normals, the six coordinate axes and normals within 1e-3/1e-8 of -z with 3-8 coplanar points; end to end: spheres, ellipsoids and elongated cells (icosphere level 1-2, perturbed; unperturbed symmetric meshes whose division plane passes through nodes), 1-3 cells, near and 30 cell sizes from the origin, natural axis, random axes, +-x +-y +-z, three minimum edge lengths, swaps on/off; non-trivial = divisions that succeeded")
+    ck.cov["rule"] = ("stages: edge/plane pairs (crossing, same side, end point on the plane, parallel, random; three scales), all 60 corner orders of a cut face, rotations to the xy plane for random unit normals, the six coordinate axes and normals within 1e-3/1e-8 of -z with 3-8 coplanar points; end to end: spheres, ellipsoids and elongated cells (icosphere level 1-2, perturbed; unperturbed symmetric meshes whose division plane passes through nodes), 1-3 cells, near and 30 cell sizes from the origin; 2-5 cells of very different mesh sizes of which some divide simultaneously, run with 1 and 4 threads; natural axis, random axes, +-x +-y +-z, three minimum edge lengths, swaps on/off; non-trivial = divisions that succeeded")
     ok = ck.proofs()
     impl = vlib.build_driver("divide", wrap_clock=True)
     model = vlib.ocaml_model()
@@ -236,7 +277,23 @@ def run(ck):
         f = oracle(c, mother, stages, r, after, pop, devs)
         if f:
             fails.append((f.split(" ")[0], dict(input=c["line"], shape=c["shape"], axis=c["axis"]), "%s cell, %s axis: %s" % (c["shape"], c["axis"], f)))
-    ck.cov["evaluations"] = nstage + len(cases)
+    # ---- several cells, some dividing simultaneously, 1 and 4 threads (the order in which the mothers finish varies)
+    multi = [gen_multi(rng) for _ in range(6 if ck.tier == "quick" else 80)]
+    nmulti = 0
+    for c in multi:
+        for th in (1, 4, 4):
+            r = vlib.run([impl], input=c["line"] + "\n", timeout=1800, env={"OMP_NUM_THREADS": str(th)})
+            nmulti += 1
+            if r.returncode != 0 or "RUNPOP" not in r.stdout:
+                fails.append(("no_exception_or_crash_escapes_division", dict(input=c["line"], threads=th, layout=c["layout"]), "cell_divider::run on %s with %d threads died (exit %s): %s" % (c["layout"], th, r.returncode, r.stderr[-300:].replace("\n", " ")))); break
+            try:
+                pop = parse_div(r.stdout)[4]
+            except Exception as e:
+                broken.append((c["line"], "driver output not understood (%s)" % e)); break
+            f = oracle_multi(c, pop)
+            if f:
+                fails.append((f.split(" ")[0], dict(input=c["line"], threads=th, layout=c["layout"]), "cells %s, %d threads: %s" % (c["layout"], th, f))); break
+    ck.cov["evaluations"] = nstage + len(cases) + nmulti
     ck.cov["distinct_nontrivial"] = nsucc
     ck.cov["traces_validated_against_impl"] = nstage - len(broken)
     ck.notes["input_distribution"] = dict(sorted(dist.items()))
